@@ -13,7 +13,9 @@ EXTRA = {"c01-frag-result-last-datagram": ["C07"], "c08-r3-fragment-glue-le": ["
          "c12-r8-battery-map-after-try": ["C14"], "c14-r8-read-sensor-fallback-running-only": ["C16"],
          "c16-r8-meter-fallback-wrong-filter": ["C14"], "c05-r8-partial-timer-only-if-none": ["C04"],
          "c08-r8-udp-reject-keeps-socket": ["C15"],
-         "c02-r8-udp-lock-acquire-inside-try": ["C06"], "c07-r8-tcp-lock-acquire-inside-try": ["C06"]}
+         "c02-r8-udp-lock-acquire-inside-try": ["C06"], "c07-r8-tcp-lock-acquire-inside-try": ["C06"],
+         "c01-r9-tcp-glue-any-segment": ["C07"], "c08-r9-loop-change-undetected-open-loop": ["C10"],
+         "c08-r9-tcp-noka-always-reconnects": ["C10"], "c10-r9-tcp-noka-close-on-success-only": ["C08"]}
 only = sys.argv[1:]
 for d in sorted(glob.glob(os.path.join(ROOT, "seeded", "[!_]*"))):
     name = os.path.basename(d)
